@@ -30,7 +30,7 @@ from rv import gen
 
 ID = "C10"
 LEVEL = "exploration"
-RULE = ("per element configuration (15 configurations of the 10 selective elements): A = "
+RULE = ("per element configuration (17 configurations of the 10 selective elements): A = "
         "ordered selection of 0..2 (quick) / 0..3 (thorough) values from the element's pool "
         "of selected values, B = ordered selection of 1..2 (quick) / 1..3 (thorough; size 3 "
         "sampled by seed) from the element's pool of unselected values (bare numbers, None, "
@@ -127,6 +127,18 @@ def _double(x):
     return x * 2
 
 
+def _small_bin(b):
+    """select_bins predicate that is not a type test: small integer contents."""
+    d = b[0] if (isinstance(b, tuple) and len(b) == 2 and isinstance(b[1], dict)) else b
+    return isinstance(d, int) and not isinstance(d, bool) and d < 10
+
+
+def _hist_of_small_hists(b):
+    import lena.structures
+    d = b[0] if (isinstance(b, tuple) and len(b) == 2 and isinstance(b[1], dict)) else b
+    return isinstance(d, lena.structures.histogram) and d.bins[0] < 10
+
+
 # ------------------------------------------------------------------ value builders
 # Every builder returns a FRESH value. *env* gives the scratch paths.
 def _hist1(v=3):
@@ -160,6 +172,11 @@ def _histhist(ctx_in_bins=False):
 def _graph():
     import lena.structures
     return lena.structures.graph([[0, 1], [2, 3]])
+
+
+def _histhist_big():
+    import lena.structures
+    return lena.structures.histogram([0, 1, 2], [_hist1(50), _hist1(70)])
 
 
 COMMON_B = {
@@ -205,6 +222,27 @@ SPECIFIC = {
                               {"output": {"filetype": "csv", "filepath": "b.csv"}}),
     "png_value": lambda env: (os.path.join(env["work"], "b.png"),
                               {"output": {"filetype": "png", "changed": True}}),
+    # ---- unselected values that carry the option keys the element reads for selected ones
+    "pair_dup_true": lambda env: (5, {"output": {"duplicate_last_bin": True}}),
+    "pair_dup_false": lambda env: (6, {"output": {"duplicate_last_bin": False}}),
+    "hist_nocsv_dup_true": lambda env: (_hist1(), {"output": {"to_csv": False,
+                                                               "duplicate_last_bin": True}}),
+    "hist_nocsv_dup_false": lambda env: (_hist1(), {"output": {"to_csv": False,
+                                                                "duplicate_last_bin": False}}),
+    # data equal to the path Write computes from the context: "already written, skipped";
+    # the directory of that path does not exist (and must not be made for a skipped value)
+    "written_path_newdir": lambda env: (
+        os.path.join(env["out"], "newdir", "sub", "done2.txt"),
+        {"output": {"filename": "done2", "fileext": "txt",
+                    "dirname": os.path.join("newdir", "sub")}}),
+    "str_nowrite_newdir": lambda env: ("not to be written", {"output": {
+        "write": False, "filename": "f", "dirname": "nd2"}}),
+    "num_newdir": lambda env: (5, {"output": {"filename": "n", "dirname": "nd3"}}),
+    "pair_template_key": lambda env: (7, {"output": {"template": "missing.tex",
+                                                     "filetype": "txt"}}),
+    "hist_big": lambda env: _hist1(50),
+    "hist_big_pair": lambda env: (_hist1(60), {"variable": {"name": "y"}}),
+    "histhist_big": lambda env: _histhist_big(),
     "hist": lambda env: _hist1(),
     "hist_pair": lambda env: (_hist1(), {"variable": {"name": "x"}}),
     "hist_float": lambda env: (_hist_float(), {"h": 1}),
@@ -272,21 +310,28 @@ def _without(*names):
 # configuration: name -> (A pool, B pool, input files to create in work dir)
 CONFIGS = {
     "ToCSV": (["A_hist", "A_hist_pair", "A_hist2", "A_graph"],
-              ALL_COMMON + ["hist_nocsv", "graph_nocsv", "hist3d", "tex_value"], []),
+              ALL_COMMON + ["hist_nocsv", "graph_nocsv", "hist3d", "tex_value", "pair_dup_true",
+                            "pair_dup_false", "hist_nocsv_dup_true", "hist_nocsv_dup_false"],
+              []),
     "ToCSV_opts": (["A_hist_pair", "A_graph", "A_hist2"],
-                   ["str", "pair_unrelated", "hist_nocsv", "graph_nocsv", "foreign_pair"], []),
+                   ["str", "pair_unrelated", "hist_nocsv", "graph_nocsv", "foreign_pair",
+                    "pair_dup_true", "hist_nocsv_dup_true"], []),
     # a bare string IS selected by Write
     "Write": (["A_text_a", "A_text_b", "A_text_c", "A_bare_text", "A_selfwriter"],
               _without("str") + ["str_nowrite", "selfwriter_nowrite", "written_path",
-                                 "num_named", "hist_pair"], ["done.txt", "fa.txt", "fc.dat"]),
+                                 "num_named", "hist_pair", "written_path_newdir",
+                                 "str_nowrite_newdir", "num_newdir"],
+              ["done.txt", "fa.txt", "fc.dat"]),
     "Write_eu": (["A_text_a", "A_text_b", "A_text_c"],
-                 ["int", "pair_other_output", "str_nowrite", "written_path", "foreign_pair"],
+                 ["int", "pair_other_output", "str_nowrite", "written_path", "foreign_pair",
+                  "written_path_newdir"],
                  ["done.txt", "fa.txt"]),
     "Write_ow": (["A_text_a", "A_text_b", "A_text_c"],
                  ["int", "pair_other_output", "str_nowrite", "written_path", "foreign_pair"],
                  ["done.txt", "fa.txt"]),
     "RenderLaTeX": (["A_csv1", "A_csv2", "A_csv3"],
-                    ALL_COMMON + ["tex_value", "pdf_value", "hist_pair", "str_nowrite"],
+                    ALL_COMMON + ["tex_value", "pdf_value", "hist_pair", "str_nowrite",
+                                  "pair_template_key"],
                     ["t.tex"]),
     "LaTeXToPDF": (["A_tex1", "A_tex2", "A_tex3"],
                    ALL_COMMON + ["pdf_value", "csv_value", "png_value", "hist_pair"],
@@ -301,6 +346,12 @@ CONFIGS = {
                     ALL_COMMON + ["hist_nograph", "graph_pair", "tex_value"], []),
     "MapBins": (["A_hist", "A_hist_pair"],
                 ALL_COMMON + ["hist_float", "graph_pair", "A_histhist", "A_histhist_pair"], []),
+    # select_bins given as a predicate on the bin content, not as a type
+    "MapBins_pred": (["A_hist", "A_hist_pair"],
+                     ["int", "pair_unrelated", "foreign", "hist_big", "hist_big_pair",
+                      "hist_float", "A_histhist"], []),
+    "IterateBins_pred": (["A_histhist", "A_histhist_pair"],
+                         ["int", "pair_unrelated", "hist", "histhist_big", "graph_pair"], []),
     "IterateBins": (["A_histhist", "A_histhist_pair", "A_histhist2"],
                     ALL_COMMON + ["hist", "hist_pair", "hist_float", "graph_pair"], []),
     "RunIf_callable": (["A_big1", "A_big2", "A_big3"],
@@ -352,6 +403,10 @@ def build_element(name, env):
         return lena.structures.HistToGraph()
     if name == "MapBins":
         return lena.structures.MapBins(_double, select_bins=int)
+    if name == "MapBins_pred":
+        return lena.structures.MapBins(_double, select_bins=_small_bin)
+    if name == "IterateBins_pred":
+        return lena.structures.IterateBins(select_bins=_hist_of_small_hists)
     if name == "IterateBins":
         return lena.structures.IterateBins()
     if name == "RunIf_callable":
